@@ -50,6 +50,14 @@ fn res<T, E: std::fmt::Display>(r: Result<Result<T, E>, String>, proj: impl Fn(&
     }
 }
 
+/// options are written as records with a tag (TLC cannot compare a string with a record, and JSON null has no TLA+ value)
+fn opt_s(o: Option<String>) -> Value {
+    match o {
+        Some(v) => json!({"some":true,"v":v}),
+        None => json!({"some":false}),
+    }
+}
+
 fn s_of<'a>(c: &'a Value, k: &str) -> &'a str {
     c.get(k).and_then(|x| x.as_str()).unwrap_or_else(|| panic!("command field {k} missing: {c}"))
 }
@@ -398,12 +406,13 @@ pub fn run(c: &Value) -> Value {
                 "t": term_to(&t),
                 "components": guarded(|| list(t.get_components())).unwrap_or_else(|p| json!({"panic":p})),
                 "with_placeholder": guarded(|| list(t.get_components_including_placeholder())).unwrap_or_else(|p| json!({"panic":p})),
-                "compound_components": guarded(|| t.get_compound_components().map(list)).unwrap_or_else(|p| Some(json!({"panic":p}))),
+                "compound_components": match guarded(|| t.get_compound_components().map(list)) {
+                    Ok(Some(l)) => json!({"some":true,"v":l}), Ok(None) => json!({"some":false}), Err(p) => json!({"some":false,"panic":p}) },
                 "extract": guarded(|| Value::Array(t.clone().extract_terms_to_vec().iter().map(term_to).collect())).unwrap_or_else(|p| json!({"panic":p})),
                 "extract_iter": guarded(|| Value::Array(t.clone().extract_terms().map(|x| term_to(&x)).collect())).unwrap_or_else(|p| json!({"panic":p})),
                 "pred": predicates(&t),
                 "is_image": t.is_image(),
-                "atom_name": t.get_atom_name(),
+                "atom_name": opt_s(t.get_atom_name()),
             })
         }
         "lex_accessors" => {
@@ -450,7 +459,7 @@ pub fn run(c: &Value) -> Value {
         // ------------------------------------------------------------ C17
         "mut" => {
             let mut t = match guarded(|| term_of(&c["t"])) { Ok(Ok(t)) => t, e => return json!({"build":"fail","msg":format!("{e:?}")}) };
-            let mut steps = vec![json!({"t":term_to(&t),"name":t.get_atom_name()})];
+            let mut steps = vec![json!({"t":term_to(&t),"name":opt_s(t.get_atom_name())})];
             for o in c["ops"].as_array().expect("ops") {
                 let r = match s_of(o, "op") {
                     "set_name" => { let n = text_of(o, "n"); guarded(|| t.set_atom_name(&n).map_err(|e| e.to_string())) }
@@ -458,7 +467,7 @@ pub fn run(c: &Value) -> Value {
                     other => panic!("unknown mutator {other}"),
                 };
                 let ok = match r { Ok(Ok(())) => "ok", Ok(Err(_)) => "err", Err(_) => "panic" };
-                steps.push(json!({"res":ok,"t":term_to(&t),"name":guarded(|| t.get_atom_name()).unwrap_or(None)}));
+                steps.push(json!({"res":ok,"t":term_to(&t),"name":opt_s(guarded(|| t.get_atom_name()).unwrap_or(None))}));
             }
             json!({"steps":steps})
         }
